@@ -49,3 +49,8 @@ package bundler
 //@ flow dataurl-provenance C02: func=parseFile ; in=bundler ; site=call EncodeStringAsShortestDataURL ; argpath=1:source.Contents
 
 //@ protect runtime-ast-cache C20 C08: type=runtimeCache ; fields=astMap ; mutex=astMutex ; in=bundler
+
+// C01 (charset clause) / C07: with the ASCII charset every emitted file, source maps included, contains only ASCII
+// bytes. The quoted text of an input map's sourcesContent entry may be copied verbatim into the output only if the
+// output is not ASCII-only or that text is itself ASCII-only; otherwise it must be re-quoted (escaped).
+//@ guarded reuse-quoted-contents-only-if-ascii C01 C07: func=(*Bundle).computeDataForSourceMapsInParallel ; in=bundler ; site=convert *.Quoted ; scenario=sourcescontent_ascii ; require-any=false:options.ASCIIOnly || true:call isASCIIOnly(*)
